@@ -38,7 +38,7 @@ Open Scope Z_scope.
 
 Record case := mkCase8 {
   k_subs : list (list path * bool);
-  k_stall : list nat;                       (* per subscriber: 0 never, 1 transient, 2 permanent *)
+  k_stall : list nat;                       (* per subscriber: 0 never, 1 transient, 2 ended (blocked for ever / failed Send / client gone), 3 blocked from its first Send to the end of the run *)
   k_pre : list wop;
   k_ops : list (wop * wres);
   k_steps : list (cstep * sobs);            (* the run, one atomic step after the other, as logged *)
@@ -120,7 +120,7 @@ Definition spec_sub (c : case) (i : nat) (qu : list path * bool) : list (nat * N
   let deqs := nth i (k_deq c) [] in
   (if existsb (fun dq => (bound c <? snd dq)%nat) deqs then [(i, 3%N)] else [])
   ++ (if Bool.eqb ended (Nat.eqb stall 2) then [] else [(i, 5%N)])
-  ++ (if ended then [] else
+  ++ (if ended || Nat.eqb stall 3 then [] else   (* 3: still inside a blocked Send when the run ends: not quiescent *)
        let ph2 := if snd qu then after_sync rs else after_sync rs in
        let paths := dedup (flat_map upd_path (map fst (k_ops c)) ++ upd_paths ph2) in
        (* deletes re-create leaves: the walk-free count only holds without them *)
